@@ -69,6 +69,7 @@ class Monitors(Listener):
         self.ingested_so_far = {}         # obs -> total_data_size after the previous block
         self.ingest_hold = {}             # obs -> when its ingest machines were taken / given back
         self.sched_delayed_seen = False
+        self.plan_checked = set()
         self._instant = None
         self._truth_instant = None
         self.simpy_order = simpy_order    # False: blocks of an instant run in an arbitrary order (stand-in env)
@@ -376,6 +377,15 @@ class Monitors(Listener):
                                   "%s: %d machines held from t=%s to t=%s, duration %s" % (
                                       o.name, st["max"], fr(st["from"]), fr(st["to"]), fr(o.duration)),
                                   sig="ingest-hold-time" + (":one-step-short:duration>=3" if early else ""))
+        # C08: the telescope's own array counter is the demand of the observations that have begun and not ended
+        if self.want("C08") and k == "telescope" and outcome[0] != "raise":
+            true_use = sum(o.demand for o in tel.observations
+                           if o.name in self.admit and str(o.status.value) != "FINISHED")
+            if tel.telescope_use != true_use:
+                self.viol("C08", "array-counter-not-arrays-in-use", "telescope_use %s, observations on the telescope need %s" % (
+                    tel.telescope_use, true_use))
+            if true_use > tel.total_arrays:
+                self.viol("C08", "arrays-in-use-exceed-total", "%s of %s" % (true_use, tel.total_arrays))
         # C08 limits
         if tel.telescope_use > tel.total_arrays or tel.telescope_use < 0:
             self.viol("C08", "array-use-out-of-range", "%s of %s" % (tel.telescope_use, tel.total_arrays))
@@ -452,6 +462,26 @@ class Monitors(Listener):
                     self.viol("C09", "reservation-changed-size",
                               "%s holds %d machines (%d idle + %d busy), reserved %d" % (
                                   name, held, len(l), len(busy), self.reservation_sizes[name]))
+        # C14: a plan mirrors the workflow configured for ITS observation (checked once, when the plan appears)
+        if self.want("C14") and k == "monitor":
+            for o in tel.observations:
+                pl = getattr(o, "plan", None)
+                if pl is None or pl.graph is None or o.name in self.plan_checked:
+                    continue
+                self.plan_checked.add(o.name)
+                wf = [x for x in self.h.spec["observations"] if x["name"] == o.name][0]["workflow"]
+                suffix = lambda t: str(t.id).rsplit("_", 1)[-1]
+                got_nodes = sorted(suffix(t) for t in pl.graph.nodes)
+                want_nodes = sorted(str(nd["id"]) for nd in wf["nodes"])
+                got_edges = sorted((suffix(u), suffix(v)) for u, v in pl.graph.edges)
+                want_edges = sorted((str(e[0]), str(e[1])) for e in wf["edges"])
+                comps = {str(nd["id"]): nd["comp"] for nd in wf["nodes"]}
+                bad_comp = [t.id for t in pl.graph.nodes if suffix(t) in comps and t.flops != comps[suffix(t)]]
+                if got_nodes != want_nodes or got_edges != want_edges or bad_comp or \
+                        any(not str(t.id).startswith(o.name + "_") for t in pl.graph.nodes):
+                    self.viol("C14", "plan-not-the-observations-workflow",
+                              "%s: plan nodes %s edges %s, its workflow has nodes %s edges %s; wrong demands %s" % (
+                                  o.name, got_nodes, got_edges[:6], want_nodes, want_edges[:6], bad_comp[:3]))
         # C14: the plan's predecessor / successor queries keep mirroring the workflow graph while the plan
         # is being executed (finished tasks are pruned from plan.tasks, never from the graph)
         if self.want("C14") and k == "monitor":
